@@ -1,3 +1,4 @@
+import AcraModel.Generated.ErrText
 /-!
 # Error texts that must not carry a value (C16)
 
@@ -6,7 +7,9 @@ Two functions of `/repo` turn an error that quotes its input into one that does 
 * `utils.ErrorWithoutValue` – `strconv`'s `*NumError` prints `strconv.<Func>: parsing "<input>": <cause>`; the
   replacement prints `strconv.<Func>: <cause>`;
 * `encryptor/postgresql.ParseQuery` – PostgreSQL's syntax errors end with ` at or near "<token>"`; the replacement
-  keeps what stands before the first ` at or near ` and adds ` at position <n>`.
+  keeps what stands before the first ` at or near ` and adds ` at position <n>`. WHICH occurrence of the separator is
+  taken (`strings.Index` / `strings.LastIndex`), the separator and the format of the new error are regenerated facts
+  (`Generated/ErrText.lean`) that the model interprets (`pgError`).
 
 The models are the text functions; the theorems say that their result does not depend on the input / the token.
 -/
@@ -50,11 +53,66 @@ def cut (sep : List Char) : List Char → List Char
   | [] => []
   | c :: m => if pre sep (c :: m) then [] else c :: cut sep m
 
-def atOrNear : List Char := " at or near ".toList
+/-- does `sep` occur in `m` -/
+def occurs (sep : List Char) : List Char → Bool
+  | [] => pre sep []
+  | c :: m => pre sep (c :: m) || occurs sep m
 
-/-- the error text of `ParseQuery` for PostgreSQL's message `msg` and cursor position `pos` -/
+/-- the part of `m` before the LAST occurrence of `sep` (all of `m` if there is none) –
+`message[:strings.LastIndex(message, sep)]` -/
+def cutLast (sep : List Char) : List Char → List Char
+  | [] => []
+  | c :: m => if occurs sep m then c :: cutLast sep m else if pre sep (c :: m) then [] else c :: m
+
+/-- the cut with the search function named in the source -/
+def cutWith (search : String) (sep : List Char) (m : List Char) : List Char :=
+  if search = "strings.LastIndex" then cutLast sep m else cut sep m
+
+/-- `fmt.Sprintf` for a format with `%s` / `%d` verbs and already rendered arguments -/
+def sprintf : List Char → List (List Char) → List Char
+  | '%' :: 's' :: r, a :: as => a ++ sprintf r as
+  | '%' :: 'd' :: r, a :: as => a ++ sprintf r as
+  | c :: r, as => c :: sprintf r as
+  | [], _ => []
+
+/-- `ParseQuery`'s error text for PostgreSQL's message `msg` and cursor position `pos`, for a given search function,
+separator and format (arguments: the cut message, the position) -/
+def pgErrorWith (search sep format : String) (msg : List Char) (pos : Nat) : List Char :=
+  sprintf format.toList [cutWith search sep.toList msg, (toString pos).toList]
+
+def atOrNear : List Char := Generated.ErrText.pgCutSeparator.toList
+
+/-- the error text of `ParseQuery` as the code computes it now (search function, separator and format regenerated) -/
 def pgError (msg : List Char) (pos : Nat) : List Char :=
-  cut atOrNear msg ++ " at position ".toList ++ (toString pos).toList
+  pgErrorWith Generated.ErrText.pgCutSearch Generated.ErrText.pgCutSeparator Generated.ErrText.pgErrorFormat msg pos
+
+/-- the same with the FIRST occurrence, the separator and the format written out – what `pgError` is when the facts
+are as expected (`Props/C16.fact_pg_sanitiser`) -/
+def pgErrorStd (msg : List Char) (pos : Nat) : List Char :=
+  cut " at or near ".toList msg ++ " at position ".toList ++ (toString pos).toList
+
+theorem pgErrorWith_std (msg : List Char) (pos : Nat) :
+    pgErrorWith "strings.Index" " at or near " "%s at position %d" msg pos = pgErrorStd msg pos := by
+  unfold pgErrorWith pgErrorStd cutWith
+  simp only [show ("strings.Index" = "strings.LastIndex") = False by decide, if_false]
+  have hf : "%s at position %d".toList = '%' :: 's' :: (" at position ".toList ++ ['%', 'd']) := by decide
+  rw [hf]
+  simp only [sprintf]
+  have : ∀ (l : List Char) (as : List (List Char)), (∀ c ∈ l, c ≠ '%') → sprintf (l ++ ['%', 'd']) as =
+      l ++ (match as with | a :: _ => a | [] => ['%', 'd']) := by
+    intro l
+    induction l with
+    | nil => intro as _; cases as <;> simp [sprintf]
+    | cons c r ih =>
+      intro as h
+      have hc : c ≠ '%' := h c List.mem_cons_self
+      have := ih as (fun d hd => h d (List.mem_cons_of_mem _ hd))
+      simp only [List.cons_append]
+      rw [sprintf]
+      · rw [this]
+      all_goals (intros; simp_all)
+  rw [this _ _ (by decide)]
+  simp
 
 /-- a prefix test looks at no more than `|p|` characters -/
 theorem pre_append (p a t : List Char) (h : p.length ≤ a.length) : pre p (a ++ t) = pre p a := by
@@ -96,5 +154,43 @@ theorem cut_append (sep k t : List Char) : cut sep (k ++ sep ++ t) = cut sep (k 
       rw [show c :: (k ++ sep ++ t) = (c :: (k ++ sep)) ++ t by simp]
       exact pre_append _ _ _ (by simp; omega)
     rw [hp, ih]
+
+theorem pre_self_append (p t : List Char) : pre p (p ++ t) = true := by
+  induction p with
+  | nil => rfl
+  | cons a l ih => simp [pre, ih]
+
+/-- **the cut returns the kind**: when no occurrence of the separator starts inside `kind`, what stands before the
+first separator of `kind ++ sep ++ t` is `kind` – whatever `t` is (it may contain the separator again) -/
+theorem cut_clean (sep kind t : List Char) (hs : sep ≠ [])
+    (hk : occurs sep (kind ++ sep.dropLast) = false) : cut sep (kind ++ sep ++ t) = kind := by
+  induction kind with
+  | nil =>
+    cases sep with
+    | nil => exact absurd rfl hs
+    | cons s sep' =>
+      show cut (s :: sep') (s :: (sep' ++ t)) = []
+      unfold cut
+      rw [show (s :: (sep' ++ t)) = (s :: sep') ++ t from rfl, pre_self_append]
+      rfl
+  | cons c k ih =>
+    have hk' : pre sep (c :: (k ++ sep.dropLast)) = false ∧ occurs sep (k ++ sep.dropLast) = false := by
+      simpa [occurs] using hk
+    have hsplit : c :: (k ++ sep ++ t) = (c :: (k ++ sep.dropLast)) ++ ([sep.getLast hs] ++ t) := by
+      have := List.dropLast_concat_getLast hs
+      conv => lhs; rw [← this]
+      simp
+    have hp : pre sep (c :: (k ++ sep ++ t)) = false := by
+      rw [hsplit, pre_append _ _ _ (by
+        have : sep.length = sep.dropLast.length + 1 := by
+          rw [List.length_dropLast]
+          have : 0 < sep.length := List.length_pos_iff.mpr hs
+          omega
+        simp; omega)]
+      exact hk'.1
+    show cut sep (c :: (k ++ sep ++ t)) = c :: k
+    unfold cut
+    rw [hp, ih hk'.2]
+    rfl
 
 end AcraModel.Sql.ErrText
